@@ -465,7 +465,11 @@ func (m *layMachine) loop(in *Interp, st *State, s ast.Stmt) []*State {
 	// after the loop: havoc everything else the body assigns, then bind the carried variable
 	in.havocLoop(st, s)
 	if it.Result.LenExpr != nil {
-		st.Vars[cv] = seqTerm([]*atom{{Seg: it.Result, Node: s}})
+		// keep what was there before the loop as it is; the loop contributes perIter*len(X) instructions
+		if rs, ok := s.(*ast.RangeStmt); ok && perIter >= 0 {
+			it.Result.LenExpr = toLin(tCall("len", in.eval(st, rs.X))).scale(int64(perIter))
+		}
+		st.Vars[cv] = seqTerm(append(append([]*atom(nil), before...), &atom{Seg: it.Result, Node: s}))
 	} else {
 		// out* already contains whatever was there before the loop (entry of the first iteration)
 		st.Vars[cv] = seqTerm([]*atom{{Seg: it.Result, Node: s}})
